@@ -124,9 +124,12 @@ func (ch *Channel) run() {
 
 	case <-ch.ctx.Done():
 		close(writerTerminate)
-		<-writerDone
 
+		// close the connection before waiting for the writer,
+		// in order to interrupt a write that is blocked in the transport
 		ch.rwc.Close()
+
+		<-writerDone
 		<-readerDone
 	}
 
